@@ -29,6 +29,7 @@ import (
 	"github.com/openbao/openbao/sdk/v2/logical"
 	"github.com/openbao/openbao/sdk/v2/physical"
 	"github.com/openbao/openbao/v2/internal/helper/namespace"
+	"github.com/openbao/openbao/v2/internal/vault/routing"
 	"github.com/openbao/openbao/v2/internal/zzverif/vh"
 )
 
@@ -82,10 +83,22 @@ func c06Tweak(conf *CoreConfig) {
 }
 
 const c06PolicyText = `path "rec/*" { capabilities = ["create","read","update","delete","list"] }
+path "recpl/*" { capabilities = ["read"] }
+path "recplo/*" { capabilities = ["read"] }
+path "recplp/*" { capabilities = ["read"] }
+path "recpk/*" { capabilities = ["read"] }
+path "recpko/*" { capabilities = ["read"] }
+path "recpkl/*" { capabilities = ["read"] }
+path "reckv/*" { capabilities = ["read"] }
+path "reckvo/*" { capabilities = ["read"] }
+path "reckvl/*" { capabilities = ["read"] }
+path "recgen/*" { capabilities = ["read"] }
+path "recgenl/*" { capabilities = ["read"] }
 path "auth/token/create" { capabilities = ["create","update"] }
 path "auth/token/create-orphan" { capabilities = ["create","update","sudo"] }`
 
 type c06Env struct {
+	recs map[string]*vhRecBackend // per mount kind (the second environment)
 	t    *testing.T
 	p    *vhPhys
 	c    *Core
@@ -98,6 +111,52 @@ func c06NewEnv(t *testing.T) *c06Env {
 	e := &c06Env{t: t, p: vhNewPhys(t)}
 	e.c, e.keys, e.root = vhNewCore(t, e.p, &e.rec, c06Tweak)
 	c06Setup(t, e.c, e.root)
+	return e
+}
+
+// c06MountKinds: the recording backend mounted the way OLD releases persisted mounts — stored type `plugin` with the
+// engine name in Config.PluginName — and under the KV types, with and without options. sys/mounts rewrites
+// type=plugin, so the entries are created white-box through Core.mount with the factory registered under the stored type.
+var c06MountKinds = []struct {
+	code, typ, plugin string
+	opts              map[string]string
+}{
+	{"pl", "plugin", "vhrec", nil},
+	{"plo", "plugin", "vhrec", map[string]string{"c06": "x"}},
+	{"plp", "plugin", "vhrec", map[string]string{"leased_passthrough": "true"}},
+	{"pk", "plugin", "kv", nil},
+	{"pko", "plugin", "kv", map[string]string{"leased_passthrough": "false"}},
+	{"pkl", "plugin", "kv", map[string]string{"leased_passthrough": "true"}},
+	{"kv", "kv", "", nil},
+	{"kvo", "kv", "", map[string]string{"c06": "x"}},
+	{"kvl", "kv", "", map[string]string{"leased_passthrough": "true"}},
+	{"gen", "generic", "", nil},
+	{"genl", "generic", "", map[string]string{"leased_passthrough": "true"}},
+}
+
+func c06NewEnvMounts(t *testing.T) *c06Env {
+	e := c06NewEnv(t)
+	e.recs = map[string]*vhRecBackend{}
+	for _, mk := range c06MountKinds {
+		key := mk.typ
+		if key == "generic" {
+			key = "kv" // mountAliases
+		}
+		old, had := e.c.logicalBackends[key]
+		holder := new(*vhRecBackend)
+		e.c.logicalBackends[key] = vhRecFactory(holder)
+		me := &routing.MountEntry{Table: routing.MountTableType, Path: "rec" + mk.code + "/", Type: mk.typ, Options: mk.opts}
+		me.Config.PluginName = mk.plugin
+		if err := e.c.mount(vhRootCtx(), me); err != nil {
+			t.Fatalf("mount %s: %v", mk.code, err)
+		}
+		if had {
+			e.c.logicalBackends[key] = old
+		} else {
+			delete(e.c.logicalBackends, key)
+		}
+		e.recs[mk.code] = *holder
+	}
 	return e
 }
 
@@ -123,6 +182,7 @@ type c06Variant struct {
 	npol   int
 	typ    string
 	orphan bool
+	mnt    string // mount kind of the secret engine: "" / "m" = mounted the modern way at rec/
 }
 
 func (v c06Variant) fields() []string {
@@ -130,7 +190,11 @@ func (v c06Variant) fields() []string {
 	if v.orphan {
 		o = "1"
 	}
-	return []string{v.flow, v.req, vh.I(int64(v.npol)), v.typ, o}
+	m := v.mnt
+	if m == "" {
+		m = "m"
+	}
+	return []string{v.flow, v.req, vh.I(int64(v.npol)), v.typ, o, m}
 }
 
 // c06Policies: n named policies; n = 0 is the token that holds only `default` (an empty list would make a child of
@@ -166,6 +230,9 @@ func (e *c06Env) requester(v c06Variant) string {
 func (e *c06Env) request(v c06Variant, tok string) (string, *logical.Response) {
 	switch v.flow {
 	case "secret":
+		if v.mnt != "" && v.mnt != "m" {
+			return vhReq(e.c, logical.ReadOperation, "rec"+v.mnt+"/lease/a", tok, nil)
+		}
 		return vhReq(e.c, logical.ReadOperation, "rec/lease/a", tok, nil)
 	case "wrap":
 		req := &logical.Request{Operation: logical.ReadOperation, Path: "rec/lease/a", ClientToken: tok,
@@ -497,26 +564,26 @@ func c06WaitRestore(c *Core) bool {
 
 func c06Variants() []c06Variant {
 	vs := []c06Variant{
-		{"secret", "s", 1, "-", false}, {"secret", "b", 1, "-", false}, {"secret", "o", 1, "-", false}, {"secret", "r", 0, "-", false},
-		{"login", "-", 1, "s", false}, {"login", "-", 1, "b", false},
-		{"create", "s", 1, "s", false}, {"create", "s", 1, "b", false}, {"create", "r", 0, "s", true}, {"create", "r", 0, "s", false},
-		{"secret", "s", 2, "-", false}, {"create", "s", 2, "s", false}, {"login", "-", 2, "s", false},
-		{"wrap", "s", 1, "-", false}, {"wrap", "o", 1, "-", false}, {"wrap", "r", 0, "-", false},
+		{"secret", "s", 1, "-", false, ""}, {"secret", "b", 1, "-", false, ""}, {"secret", "o", 1, "-", false, ""}, {"secret", "r", 0, "-", false, ""},
+		{"login", "-", 1, "s", false, ""}, {"login", "-", 1, "b", false, ""},
+		{"create", "s", 1, "s", false, ""}, {"create", "s", 1, "b", false, ""}, {"create", "r", 0, "s", true, ""}, {"create", "r", 0, "s", false, ""},
+		{"secret", "s", 2, "-", false, ""}, {"create", "s", 2, "s", false, ""}, {"login", "-", 2, "s", false, ""},
+		{"wrap", "s", 1, "-", false, ""}, {"wrap", "o", 1, "-", false, ""}, {"wrap", "r", 0, "-", false, ""},
 	}
 	if vh.Thorough() {
 		for n := 1; n <= 4; n++ {
 			for _, r := range []string{"s", "b", "o"} {
-				vs = append(vs, c06Variant{"secret", r, n, "-", false}, c06Variant{"wrap", r, n, "-", false})
+				vs = append(vs, c06Variant{"secret", r, n, "-", false, ""}, c06Variant{"wrap", r, n, "-", false, ""})
 			}
 			for _, ty := range []string{"s", "b"} {
-				vs = append(vs, c06Variant{"create", "s", n, ty, false})
+				vs = append(vs, c06Variant{"create", "s", n, ty, false, ""})
 				if n >= 1 {
-					vs = append(vs, c06Variant{"login", "-", n, ty, false})
+					vs = append(vs, c06Variant{"login", "-", n, ty, false, ""})
 				}
 			}
-			vs = append(vs, c06Variant{"create", "s", n, "s", true})
+			vs = append(vs, c06Variant{"create", "s", n, "s", true, ""})
 		}
-		vs = append(vs, c06Variant{"create", "r", 0, "b", false}, c06Variant{"create", "r", 0, "b", true})
+		vs = append(vs, c06Variant{"create", "r", 0, "b", false, ""}, c06Variant{"create", "r", 0, "b", true, ""})
 	}
 	return vs
 }
@@ -532,7 +599,25 @@ func TestVerifC06(t *testing.T) {
 		j := rng.Intn(i + 1)
 		vs[i], vs[j] = vs[j], vs[i]
 	}
+	var e2 *c06Env
+	base := e
+	for _, mk := range c06MountKinds {
+		vs = append(vs, c06Variant{"secret", "s", 1, "-", false, mk.code})
+	}
+	if vh.Thorough() {
+		for _, mk := range c06MountKinds {
+			vs = append(vs, c06Variant{"secret", "o", 2, "-", false, mk.code}, c06Variant{"secret", "r", 0, "-", false, mk.code})
+		}
+	}
 	for _, v := range vs {
+		e = base
+		if v.mnt != "" && v.mnt != "m" {
+			if e2 == nil {
+				e2 = c06NewEnvMounts(t)
+			}
+			e = e2
+			e.rec = e.recs[v.mnt]
+		}
 		f := v.fields()
 		// ---- dry run
 		tok := e.requester(v)
@@ -575,7 +660,7 @@ func TestVerifC06(t *testing.T) {
 		}
 
 		// ---- every crash point: one gated run, snapshot after each write of the request goroutine
-		if writes > 0 {
+		if writes > 0 && e == base {
 			tok := e.requester(v)
 			before := e.p.AllKeys()
 			s := vhNewSched(e.p, 1)
